@@ -159,6 +159,10 @@ def run(an: Analysis, rep):
     rep.run(purity, an, rep, "R02.P", ["from_code"])
     rep.run(r02f, an, rep)
     rep.run(r02p, an, rep)
+    from . import line_fold as _lf2
+    from .common import SharedRules as _SR2l
+    rep.run(_lf2.fold_rule, an, _SR2l(rep, "R02.N", "the line-table codec folded over tables written by transcriptions of CPython's assemblers (shared with C10's R10.F): 'each instruction's line_number is the line "
+                                                   "CPython's line table assigns to that instruction's first code unit' - also for entries behind the last instruction"))
     from . import c04 as _c04w
     from .common import SharedRules as _SR2w, assert_guard_rule as _agr, identity_rule as _idr
     rep.run(_c04w.r04f, an, _SR2w(rep, "R02.W", "the function that builds the data from a code object, folded over witness code objects (shared with C04's R04.W): the constant an instruction loads "
@@ -941,6 +945,9 @@ def _decoder_witnesses(V):
         ("one offset targeted by an absolute and by a relative jump, another target behind it",
          [("LOAD_NAME", 0), ("POP_JUMP_IF_TRUE", ("abs", 10)), ("JUMP_FORWARD", ("rel", 4)), ("LOAD_NAME", 0), ("POP_JUMP_IF_FALSE", ("abs", 14)), ("LOAD_NAME", 1), ("POP_TOP", 0), ("RETURN_VALUE", 0)],
          ("a", "b"), (), (), (), ()),
+        # two relative jumps with the same opcode and the same operand at different places; NOP with an operand byte (3.10 leaves `NOP 1`, `NOP 2` behind folded tuples)
+        ("two equal relative jumps at different offsets, no-operand opcodes with an operand byte",
+         [("JUMP_FORWARD", ("rel", 2)), ("NOP", 3), ("JUMP_FORWARD", ("rel", 2)), ("NOP", 1), ("RETURN_VALUE", 0)], (), (), (), (), ()),
         ("a jump to an instruction with a redundant prefix, a jump to itself, a relative jump of zero",
          [("LOAD_NAME", 0), ("POP_JUMP_IF_TRUE", ("abs", 6)), ("JUMP_ABSOLUTE", ("abs", 4)), (E_, 0), ("LOAD_NAME", 1), ("JUMP_FORWARD", ("rel", 0)), ("RETURN_VALUE", 0)],
          ("a", "b"), (), (), (), ()),
